@@ -1,6 +1,6 @@
 \* quick: policy-independent safety ("any": a gap may be skipped at any loop iteration), all feeds incl. illegal ones
 CONSTANT W = 4
-CONSTANT MaxSteps = 6
+CONSTANT MaxSteps = 5
 CONSTANT MaxNums = {0}
 CONSTANT Olds = {FALSE}
 CONSTANT Kinds <- KTwo
